@@ -232,14 +232,18 @@ def build_traces(path, tier, seed):
                 fn = "obj"
             if rng.integers(2):
                 dt = int(rng.integers(1, 4))
-        elif rng.integers(6) == 0:
+        elif i not in (6, 20, 34, 48) and rng.integers(6) == 0:
             # records held in single / half precision, riding on an offset (the running integrals soon dwarf their increments):
             # the integrals are those of the stored samples, accumulated in double precision
             ft_ = [np.float32, np.float16, np.float32][int(rng.integers(3))]
             a = (np.asarray(a, dtype=float) / (np.max(np.abs(a)) + 1e-300) * float(rng.uniform(0.2, 3.0)) + float(rng.choice([0.5, -2.0, 0.0]))).astype(ft_)
             shape += " (%s)" % np.dtype(ft_).name
-        elif rng.integers(8) == 0:   # magnitudes whose squares leave the double range (2^-560 .. 2^520): |x| itself is ordinary
-            a = a / (np.max(np.abs(a)) + 1e-300) * float(2.0 ** rng.choice([-560, -400, 380, 520]))
+        elif i in (6, 20, 34, 48) or rng.integers(8) == 0:   # magnitudes whose squares leave the double range (2^-560 .. 2^520): |x| itself is ordinary
+            #                                                   (four fixed positions of every run, tiny and huge alternating, through the object)
+            a = np.asarray(a, dtype=float)
+            if not np.max(np.abs(a)) > 0:
+                a = a + 1.0
+            a = a / (np.max(np.abs(a)) + 1e-300) * float(2.0 ** ([-560, 520, -400, 380][(i // 14) % 4] if i in (6, 20, 34, 48) else rng.choice([-560, -400, 380, 520])))
             shape += " (extreme magnitude)"
         tid += 1
         recs.append(series_record(tid, fn, a, dt, trap, rng))
